@@ -15,7 +15,7 @@ COMMON_NOTE = ("Trusted: Lean 4.33 kernel (axioms ⊆ {propext, Classical.choice
 
 CLAIMS = {
     "C01": {
-        "technique": "Lean 4 theorems by mutual structural induction over the directory tree: depth-first visit_dir = check_file folded over the pruned pre-order (state-passing walker with visited-inode set; depth arithmetic lemma), window = filter by level, subtree contiguity, counting; breadth-first: queue loop = check_file folded over a fuel-free level order (well-founded recursion; fuel sufficiency proved), level order is a permutation of the pre-order, levels never decrease + CLI correspondence (exact sequences) + os.walk oracle",
+        "technique": "Lean 4 theorems by mutual structural induction over the directory tree: depth-first visit_dir = check_file folded over the pruned pre-order (state-passing walker with visited-inode set; depth arithmetic lemma), window = filter by level, subtree contiguity, counting; breadth-first: queue loop = check_file folded over a fuel-free level order (well-founded recursion; fuel sufficiency proved), level order is a permutation of the pre-order, levels never decrease; several disjoint roots = the roots one after the other + CLI correspondence (exact sequences) + os.walk oracle",
         "text": ("Theorems for every finite tree (any shape, depth, names, entry kinds) and every mindepth/maxdepth: with no streamed "
                  "LIMIT the depth-first searcher's result is exactly check_file (+ archive member loop) folded over the entries in pre-order "
                  "pruned below maxdepth, the traversal state only gains the tree's inode numbers, no error is recorded; that event list is "
@@ -27,7 +27,10 @@ CLAIMS = {
                  "levelOrder (defined without fuel; the model's fuel, one per directory plus one, is proved sufficient), with exactly the "
                  "unlistable directories recorded; bfs_same_entries_as_dfs — the level order is a permutation of the depth-first pre-order "
                  "(same rows, same multiplicities, for every tree and window); bfs_levels_nondecreasing — no entry precedes one of smaller "
-                 "depth. Several roots are decided by byte-exact correspondence with the model and by the os.walk oracle, not by theorems."),
+                 "depth. Several roots: roots_exact — plain roots (no regexp/symlinks/ignore option) resolving to listable directories whose "
+                 "directory/link inode numbers are pairwise distinct and unseen are searched one after the other, each reporting exactly its "
+                 "own events under its own depth window and traversal mode (one_root_exact covers both modes). Overlapping roots and roots "
+                 "with options are decided by byte-exact correspondence with the model and by the os.walk oracle."),
         "ref": "DESIGN.md §4 C01",
     },
     "C02": {
